@@ -19,6 +19,7 @@ def runCase (c : Case) : List String :=
   | "containers" => runContainers c.lines
   | "soft" => runSolve c.lines
   | "lazy" => runSolve c.lines
+  | "hints" => runSolve c.lines
   | "cancel" => runSolve c.lines
   | "reuse" => runSolve c.lines
   | "reuse-async" => runSolve c.lines
